@@ -143,13 +143,16 @@ def run_pairs(exe, progs, fuel=FUEL):
             continue
         ij.append((jid, src, args)); mj.append((jid, se, args, fuel))
     ir, ierr = run_impl(exe, ij)
-    mr, merr = run_model(mj)
+    try:
+        mr, merr = run_model(mj, timeout=120)
+    except subprocess.TimeoutExpired:
+        mr, merr = {}, ""   # a runaway program (the evaluator's fuel bounds depth, not work): find it one by one
     missing = [j for j in mj if str(j[0]) not in mr]
     if missing:
         # the model process died (e.g. native stack overflow on a runaway program): re-run one by one
         for j in missing:
             try:
-                one, _ = run_model([j], timeout=120)
+                one, _ = run_model([j], timeout=(120 if len(missing) < 5 else 20))
             except subprocess.TimeoutExpired:
                 one = {}
             mr[str(j[0])] = one.get(str(j[0]), dict(kind="modeldied", value="-", out=b"", clos="", raised=[]))
@@ -165,7 +168,7 @@ import copy
 
 EXPR_TAGS = {"int", "long", "float", "double", "char", "str", "bool", "nil", "recnil", "var", "un", "bin", "and", "or", "cond",
              "assign", "seq", "while", "dowhile", "for", "forin", "call", "builtin", "lam", "arrlit", "arrnew", "index",
-             "record", "tuple", "field", "enumval", "enumrec", "match", "iflet", "listcomp", "range", "slice"}
+             "record", "tuple", "field", "enumval", "enumrec", "match", "iflet", "listcomp", "range", "slice", "pipe"}
 
 def is_expr(x):
     return isinstance(x, list) and x and isinstance(x[0], str) and x[0] in EXPR_TAGS
